@@ -24,6 +24,10 @@ enum Fault {
     /// WebSocketClient only: the peer sends a WebSocket Close frame and then keeps the TCP connection open
     /// (never reads, never closes): the connection has closed all the same
     CloseFrameKeepOpen,
+    /// WebSocketClient only: a Text message (not a REPE frame at all), the peer staying up
+    TextFrame,
+    /// WebSocketClient only: a binary message of 47 bytes (shorter than a header), the peer staying up
+    ShortBinary,
 }
 
 #[derive(Clone, Copy, Debug, PartialEq, Eq)]
@@ -158,6 +162,8 @@ fn scenarios(tier: Tier) -> Vec<Scenario> {
     for &inflight in inflights {
         for timed in [false, true] {
             v.push(Scenario::Failure { kind: Kind::Ws, inflight, timed, fault: Fault::CloseFrameKeepOpen });
+            v.push(Scenario::Failure { kind: Kind::Ws, inflight, timed, fault: Fault::TextFrame });
+            v.push(Scenario::Failure { kind: Kind::Ws, inflight, timed, fault: Fault::ShortBinary });
         }
     }
     v
@@ -261,10 +267,22 @@ async fn run_failure_sub(kind: Kind, inflight: usize, timed: bool, fault: Fault,
                 let _ = ws.send(tokio_tungstenite::tungstenite::Message::Close(None)).await;
             }
         }
+        Fault::TextFrame => {
+            if let clients::Peer::Ws { ws, .. } = &mut peer {
+                use futures_util::SinkExt;
+                let _ = ws.send(tokio_tungstenite::tungstenite::Message::Text("not a REPE frame".into())).await;
+            }
+        }
+        Fault::ShortBinary => {
+            if let clients::Peer::Ws { ws, .. } = &mut peer {
+                use futures_util::SinkExt;
+                let _ = ws.send(tokio_tungstenite::tungstenite::Message::Binary(vec![0x07; 47])).await;
+            }
+        }
     }
     memstream::settle().await;
     let mut flags = if inflight > 0 { 1 } else { 0 };
-    if fault == Fault::CloseFrameKeepOpen {
+    if matches!(fault, Fault::CloseFrameKeepOpen | Fault::TextFrame | Fault::ShortBinary) {
         flags |= 256;
     }
     for (i, h) in calls.into_iter().enumerate() {
@@ -668,7 +686,7 @@ pub fn run(tier: Tier) -> ! {
     let coverage = json!({
         "evaluations": executed,
         "distinct_nontrivial": all.len(),
-        "rule": "for both tokio clients over an in-memory stream with a paused clock: every fault (peer closes before the calls / after reading them, reset, reply cut after 1/47/48/50/len-1 bytes, five kinds of malformed frame, answer one then close) x 0..3 (thorough 0..16) calls in flight x with/without per-call timeouts; a response arriving 4990/50/2 ms before a 5 s timeout and 2 ms after it, with and without another call in flight; two staggered timeouts; cancellation before start, while awaiting the response and while queued on the writer lock; a failure that leaves the client's writing side open (five malformed frames, half-close, cut reply + half-close) injected while a 20 KB request is stalled mid-write, with 0..2 (thorough 0..4) earlier calls in flight, the peer afterwards letting the stalled write through or never reading again; WebSocketClient failures with the notification subscription replaced beforehand (the current subscriber must see end-of-stream); a WebSocket Close frame from a peer that keeps the TCP connection open. A call that is still pending after a virtual hour hangs. Distinct = scenarios (each has a different script).",
+        "rule": "for both tokio clients over an in-memory stream with a paused clock: every fault (peer closes before the calls / after reading them, reset, reply cut after 1/47/48/50/len-1 bytes, five kinds of malformed frame, answer one then close) x 0..3 (thorough 0..16) calls in flight x with/without per-call timeouts; a response arriving 4990/50/2 ms before a 5 s timeout and 2 ms after it, with and without another call in flight; two staggered timeouts; cancellation before start, while awaiting the response and while queued on the writer lock; a failure that leaves the client's writing side open (five malformed frames, half-close, cut reply + half-close) injected while a 20 KB request is stalled mid-write, with 0..2 (thorough 0..4) earlier calls in flight, the peer afterwards letting the stalled write through or never reading again; WebSocketClient failures with the notification subscription replaced beforehand (the current subscriber must see end-of-stream); a WebSocket Close frame, a Text message or a 47-byte binary message from a peer that keeps the TCP connection open. A call that is still pending after a virtual hour hangs. Distinct = scenarios (each has a different script).",
         "samples": samples.take(),
         "exhaustive": executed == all.len() as u64,
         "nonvacuity": {"failures_with_calls_in_flight": g(0), "subscriber_eof_checks": g(1), "timeout_scenarios": g(2), "late_responses_after_timeout": g(3), "staggered_timeouts": g(4), "cancellations": g(5), "failures_while_a_request_was_really_stalled_mid_write": g(6), "failures_with_a_replaced_subscription": g(7), "close_frame_with_tcp_left_open": g(8)},
